@@ -450,3 +450,51 @@ func hasFreeBound(f string) bool {
 		}
 	}
 }
+
+// UseF64 declares the float64 operations and states their semantics on the *exact-integer fragment*: float64 values that
+// are integers of magnitude at most 2^53 (every such integer is representable exactly). On that fragment comparison is
+// integer comparison, abs/neg/trunc act as on integers, the values are finite, and conversion back to int64 is exact;
+// a float64 that is not NaN and lies between two such integers truncates to an integer between them. Everything else
+// about float64 stays uninterpreted. Each axiom is an IEEE-754 fact proved in QF_BVFP by the raw lemmas
+// specs/lemmas/C12-f64-*.smt2 (run by the C12 check).
+func (s *Script) UseF64() {
+	if s.preambleSeen["f64-theory"] {
+		return
+	}
+	s.preambleSeen["f64-theory"] = true
+	decl := func(name, sig string) {
+		if !s.declared[name] {
+			s.declared[name] = true
+			s.preamble = append(s.preamble, fmt.Sprintf("(declare-fun %s %s)", name, sig))
+		}
+	}
+	decl("f64.of.int", "(Int) F64")
+	decl("int.of.f64", "(F64) Int")
+	for _, n := range []string{"lt", "le", "gt", "ge", "eq"} {
+		decl("f64."+n, "(F64 F64) Bool")
+	}
+	for _, n := range []string{"add", "sub", "mul", "div"} {
+		decl("f64."+n, "(F64 F64) F64")
+	}
+	for _, n := range []string{"neg", "abs", "trunc"} {
+		decl("f64."+n, "(F64) F64")
+	}
+	decl("f64.isnan", "(F64) Bool")
+	decl("f64.isinf", "(F64) Bool")
+	safe := func(v string) string {
+		return fmt.Sprintf("(and (<= (- 9007199254740992) %s) (<= %s 9007199254740992))", v, v)
+	}
+	for _, op := range [][2]string{{"lt", "<"}, {"le", "<="}, {"gt", ">"}, {"ge", ">="}, {"eq", "="}} {
+		s.preamble = append(s.preamble, fmt.Sprintf("(assert (forall ((a?f Int) (b?f Int)) (! (=> (and %s %s) (= (f64.%s (f64.of.int a?f) (f64.of.int b?f)) (%s a?f b?f))) :pattern ((f64.%s (f64.of.int a?f) (f64.of.int b?f))))))", safe("a?f"), safe("b?f"), op[0], op[1], op[0]))
+	}
+	one := func(body, pat string) {
+		s.preamble = append(s.preamble, fmt.Sprintf("(assert (forall ((a?f Int)) (! (=> %s %s) :pattern (%s))))", safe("a?f"), body, pat))
+	}
+	one("(not (f64.isnan (f64.of.int a?f)))", "(f64.isnan (f64.of.int a?f))")
+	one("(not (f64.isinf (f64.of.int a?f)))", "(f64.isinf (f64.of.int a?f))")
+	one("(= (f64.trunc (f64.of.int a?f)) (f64.of.int a?f))", "(f64.trunc (f64.of.int a?f))")
+	one("(= (f64.abs (f64.of.int a?f)) (f64.of.int (ite (< a?f 0) (- a?f) a?f)))", "(f64.abs (f64.of.int a?f))")
+	one("(= (f64.neg (f64.of.int a?f)) (f64.of.int (- a?f)))", "(f64.neg (f64.of.int a?f))")
+	one("(= (int.of.f64 (f64.of.int a?f)) a?f)", "(f64.of.int a?f)")
+	s.preamble = append(s.preamble, fmt.Sprintf("(assert (forall ((x?f F64) (lo?f Int) (hi?f Int)) (! (=> (and %s %s (not (f64.isnan x?f)) (not (f64.lt x?f (f64.of.int lo?f))) (not (f64.gt x?f (f64.of.int hi?f)))) (and (<= lo?f (int.of.f64 x?f)) (<= (int.of.f64 x?f) hi?f))) :pattern ((f64.lt x?f (f64.of.int lo?f)) (f64.gt x?f (f64.of.int hi?f))))))", safe("lo?f"), safe("hi?f")))
+}
